@@ -16,6 +16,7 @@ let () =
                 | "db" -> M_db.handle cmd args
                 | "wal" -> M_wal.handle cmd args
                 | "value" -> M_value.handle cmd args
+                | "open" -> M_open.handle cmd args
                 | _ -> failwith ("unknown module " ^ m))
              | _ -> failwith "bad line"
            with
